@@ -133,6 +133,9 @@ def dim_map(shape, role):
 # ---------------------------------------------------------------------------------------------------------------------
 DEFAULT_RANGE_C = (25.0, 600.0)
 MIN_SPAN_C = 30.0
+END_NOT_USABLE = {}     # material -> declared range end at which its own correlation is not a finite real number
+# correlations that declare no range but are undefined in part of the default one (saturation curve ends at 373.9 C)
+DEFAULT_OVERRIDES_C = {"SaturatedWater": (25.0, 350.0), "SaturatedSteam": (25.0, 350.0)}
 C_TO_K = 273.15
 
 
@@ -179,6 +182,7 @@ class MatInfo:
         from armi.materials import custom, material
 
         self.cls = cls
+        self._inside = {}
         self.name = cls.__name__
         self.is_fluid = issubclass(cls, material.Fluid)
         self.is_custom = issubclass(cls, custom.Custom)
@@ -194,8 +198,30 @@ class MatInfo:
         self.range_c = (rng[0], rng[1]) if rng else None
         self.range_labels = rng[2] if rng else []
 
+    def inside(self, t_c):
+        """True iff every range check the correlation itself makes at t_c passes (exact in the correlation's own unit)."""
+        if t_c in self._inside:
+            return self._inside[t_c]
+        self._inside[t_c] = r = self._inside_uncached(t_c)
+        return r
+
+    def _inside_uncached(self, t_c):
+        m = self.cls()
+        checks = []
+        m.checkTempRange = lambda minT, maxT, val, label="": checks.append(minT <= val <= maxT)
+        try:
+            v = m.pseudoDensity(Tk=t_c + C_TO_K) if self.is_fluid else m.linearExpansionPercent(Tc=t_c)
+        except NotImplementedError:
+            raise
+        except Exception:  # noqa: BLE001
+            return False
+        if isinstance(v, complex) or not math.isfinite(v):
+            END_NOT_USABLE[self.name] = "%s at %s C: %r" % ("pseudoDensity" if self.is_fluid else "linearExpansionPercent", t_c, v)
+            return False
+        return all(checks)
+
     def range(self):
-        return self.range_c or DEFAULT_RANGE_C
+        return self.range_c or DEFAULT_OVERRIDES_C.get(self.name, DEFAULT_RANGE_C)
 
     def temps(self, fracs, other=None):
         """Distinct temperatures (deg C) at the given fractions of this material's valid range, intersected with the
